@@ -3,6 +3,17 @@ request-target parsing, host policy, alias/vhost/x-sendfile path composition."""
 import itertools
 from .. import common as C
 
+MANIFEST = dict(
+    text="Lean 4 theorems over an executable model of burl_normalize / buffer_urldecode_path / "
+         "buffer_path_simplify / http_request_parse_target (canonical absolute path, no dot segments, for "
+         "every input and option set); model tied to the C by exhaustive small-scope + random differential "
+         "runs under ASan/UBSan",
+    note="trusted: Lean kernel (+propext, Quot.sound), hand-written model validated by the h_url "
+         "correspondence, byte-class table and flag values regenerated from burl.c/burl.h each run; TOCTOU "
+         "and filesystem semantics outside the model",
+    tech="Lean 4 proof over hand-written model + differential correspondence (in-process C harness)",
+    ref="6/C02")
+
 PATH_ALPHA = [b"/", b".", b"%", b"2", b"e", b"F", b"a", b"\\", b"?", b"\x01", b"\x7f",
               b"\xc0", b"5", b"c"]
 URL_ALPHA = PATH_ALPHA + [b"#", b"0", b"+", b"&", b"f", b"\xf5", b"3", b"A"]
